@@ -122,24 +122,70 @@ def reuse_buffer(fn, sig):
     buf[:] = sig
     return fn(buf)
 
-def object_route(sig, fs, f_range, center, method, bk, th, fek, return_samples=True, shorthand=False):
-    """the same analysis through a Bycycle object WITH A HISTORY: constructed with other settings (other centring, boundary 0, a
-    larger min_n_cycles), fitted on the same array object, then every setting is edited / rebound to the requested one and the
-    object is fitted again. With `shorthand`, the thresholds are given to the constructor under their documented short names."""
-    import copy as _copy
+def object_route(sig, fs, f_range, center, method, bk, th, fek, return_samples=True, shorthand=False, variant=None, which=None):
+    """the same analysis through a Bycycle object WITH A HISTORY, one of three kinds (chosen from the samples, or `variant`):
+    0/1 'rebinding': constructed with other settings (other centring, boundary 0, a larger min_n_cycles), fitted on the same array object, a plot,
+        a rejected edge recomputation, then every setting is edited / rebound to the requested one and the object is fitted again;
+    2   'in-place only': constructed with the requested settings except for the VALUES inside its dictionaries (every threshold, the boundary, the
+        burst options), fitted on the same array object, then ONLY in-place edits of those dictionaries (no attribute is rebound, the signal object
+        is the same), fitted again - whatever the object remembers about its last fit, it must notice the edits;
+    3   'buffer': constructed with the requested settings, fitted on a buffer holding OTHER samples, the buffer is refilled in place with the
+        requested samples, fitted again on the same buffer object with the same settings.
+    With `shorthand`, the thresholds are given to the constructor under their documented short names."""
+    import copy as _copy, zlib as _zlib
     from bycycle import Bycycle
     sig = np.asarray(sig)
+    if variant is None:
+        variant = _zlib.crc32(np.ascontiguousarray(sig[4:20]).tobytes()) % 4
+    short = lambda d: None if d is None else {((k[:-len('_threshold')] if shorthand and k.endswith('_threshold') else k)): v for k, v in d.items()}
+    if variant == 2:
+        # which dictionaries start from other values: the thresholds only / the extrema and burst options only / all of them
+        if which is None: which = _zlib.crc32(np.ascontiguousarray(sig[-24:-8]).tobytes()) % 3
+        if th is None: which = 1
+        th0 = short(th)
+        if th is not None and which in (0, 2):          # other VALUES under the same keys (valid ones: fractions stay in [0, 1], counts stay >= 0)
+            th0 = short({k: ((v + 5) if k == 'min_n_cycles' else (type(v)(0.25) if float(v) != 0.25 else type(v)(0.75))) for k, v in th.items()})
+        fek0 = _copy.deepcopy(fek); bk0 = _copy.deepcopy(bk)
+        if which in (1, 2):
+            if fek0 is not None and 'boundary' in fek0: fek0['boundary'] = fek0['boundary'] + 7
+            if fek0 is not None and isinstance(fek0.get('filter_kwargs'), dict) and 'n_cycles' in fek0['filter_kwargs']: fek0['filter_kwargs']['n_cycles'] = fek0['filter_kwargs']['n_cycles'] + 1
+            if bk0 is not None and 'amp_threshes' in bk0: bk0['amp_threshes'] = (0.5, 3.0)
+            if bk0 is not None and 'min_n_cycles' in bk0: bk0['min_n_cycles'] = bk0['min_n_cycles'] + 2
+        bm = quiet(Bycycle, center_extrema=center, burst_method=method, burst_kwargs=bk0, thresholds=th0, find_extrema_kwargs=fek0, return_samples=return_samples)
+        try:
+            quiet(bm.fit, sig, fs, f_range)
+        except Exception:
+            pass
+        if th is not None:          # (the object stores the thresholds under their FULL names)
+            for k, v in th.items(): bm.thresholds[k] = v
+        if fek is not None and 'boundary' in fek: bm.find_extrema_kwargs['boundary'] = fek['boundary']
+        if fek is not None and isinstance(fek.get('filter_kwargs'), dict) and 'n_cycles' in fek['filter_kwargs']: bm.find_extrema_kwargs['filter_kwargs']['n_cycles'] = fek['filter_kwargs']['n_cycles']
+        if bk is not None:
+            for k in ('amp_threshes', 'min_n_cycles'):
+                if k in bk: bm.burst_kwargs[k] = bk[k]
+        quiet(bm.fit, sig, fs, f_range)
+        return bm.df_features
+    if variant == 3:
+        buf = np.ascontiguousarray(sig[::-1]).copy()            # other samples (the recording backwards), same length and type
+        if len(buf) > 8: buf[: len(buf) // 2] = buf[: len(buf) // 2] // 2 if buf.dtype.kind in 'iub' else buf[: len(buf) // 2] * 0.5
+        bm = quiet(Bycycle, center_extrema=center, burst_method=method, burst_kwargs=_copy.deepcopy(bk), thresholds=short(th), find_extrema_kwargs=_copy.deepcopy(fek),
+                   return_samples=return_samples)
+        try:
+            quiet(bm.fit, buf, fs, f_range)
+        except Exception:
+            pass
+        buf[:] = sig
+        quiet(bm.fit, buf, fs, f_range)
+        return bm.df_features
     th0 = None; edit_min_n = False
     if th is not None:
-        th0 = {((k[:-len('_threshold')] if shorthand and k.endswith('_threshold') else k)): v for k, v in th.items()}
+        th0 = short(th)
         # half of the histories start from a LARGER min_n_cycles that is edited in place before the second fit; the other half hold the
         # requested value from the start and never touch it again (so that nothing else may)
-        import zlib as _zlib
         edit_min_n = _zlib.crc32(np.ascontiguousarray(sig[:16]).tobytes()) % 2 == 0
         if 'min_n_cycles' in th0 and edit_min_n: th0['min_n_cycles'] = th0['min_n_cycles'] + 5
     # half of the histories hand the requested find_extrema_kwargs to the CONSTRUCTOR (and keep them), the other half start from other
     # ones and rebind the attribute before the second fit
-    import zlib as _zlib
     ctor = _zlib.crc32(np.ascontiguousarray(sig[-16:]).tobytes()) % 2 == 0
     ctor_fek = fek if ctor else {'filter_kwargs': {'n_cycles': 3}, 'boundary': 0}
     bm = quiet(Bycycle, center_extrema=('trough' if center == 'peak' else 'peak'), burst_method=method,
